@@ -505,7 +505,7 @@ func (ca *clusterAdmin) AlterPartitionReassignments(topic string, assignment [][
 				return rsp.ErrorCode
 			}
 
-			if rsp.ErrorCode > 0 {
+			if rsp.ErrorCode != ErrNoError {
 				errs = append(errs, errors.New(rsp.ErrorCode.Error()))
 			}
 
